@@ -145,7 +145,8 @@ OVERRIDES = [
     (r'^c26_(slice_(whole|first|negative|empty|zero|far)|insert_(at|after|past|zero|minus|far|into)|index_first|length_counts|case_functions)', dict(bounded='the concrete string "äbc" (and four other literals), seven concrete index pairs / indices',
         functions=['string.slice / insert / index / length (complete closure bodies, extracted ranges)'])),
     (r'^c29_number_', dict(functions=['Number::ceil', 'Number::floor', 'Number::round', 'Number::abs', 'Number::trunc'])),
-    (r'^c29_clamp_', dict(bounded='four concrete (min, number, max) triples in px', functions=['math.clamp (complete closure body, extracted range)'],
+    (r'^c29_clamp_(all_doubles|rejects)', dict(bounded=None, functions=['math.clamp (complete closure body, extracted range; Numeric / Value instantiated at a double with a unit tag)'])),
+    (r'^c29_clamp_returns_', dict(bounded='four concrete (min, number, max) triples in px', functions=['math.clamp (complete closure body, extracted range)'],
                           kind='attempt', tier='thorough', timeout=2400)),  # measured: > 900 s (UnitSet::is_compatible builds BTreeMaps)
     (r'^c29_percentage', dict(bounded='four probe values')),
     (r'^c29_(ceil|floor|round)_keeps_unit', dict(bounded='three probe values (2.5, -2.5, 7); the primitives are complete in number.rs')),
